@@ -526,4 +526,5 @@ func runC20(e *Engine, r *Report) {
 	ruleCreatedFileSync(e, r, 1, "tools")
 	borrow(e, r, "C16", "ERR-refusal", "MPT-publish-before-record")
 	borrow(e, r, "C08", "WMW-ondisk-cursors")
+	borrow(e, r, "C10", "ERR-soft-pairs")
 }
